@@ -4,9 +4,10 @@
    every run by tools/gen/gen_c13cfg.py and tested by the correspondence run against the real code).
    Outcomes: LCrash / VCrash / Crash = the C performs an access outside an object (or recursion without bound);
    Signal = fatal signal (SIGFPE); LFuel / VFuel = the loader/verifier loop does not end within its own bound.
-   Every "_safe" statement is proved for all inputs under the repairs it names; every "_refuted" statement gives, for the
-   current source, a computed input on which the unrepaired code misbehaves (those inputs are replayed on the real
-   binaries by tools/props/c13.py and listed in known_findings.d/C13.json). *)
+   The headline theorems are stated for [cur], i.e. for the code as it is now, with no premise about repairs: they compile only
+   while the current source contains the six bounds/overflow repairs (if one is reverted, [cur] changes, the proof breaks and the
+   check replays the corresponding witness input of C13_repairs_necessary on the real binaries).  The cfg-parametrised forms
+   (..._cfg) are kept as the lemmas they follow from. *)
 From Coq Require Import NArith ZArith List Bool String.
 From NV Require Import Base.Bytes Isa.Codec gen.IsaTable gen.C13Cfg Nvm.LoaderC Nvm.LoaderCProofs Nvm.Verifier Nvm.VerifierProofs
   Vm.Value Vm.Bounds Vm.IsaModelled Vm.Step Vm.StepProofs Vm.Run Vm.RunProofs.
@@ -20,32 +21,32 @@ Proof. vm_compute. reflexivity. Qed.
 Print Assumptions C13_isa_as_modelled.
 
 (* ---- loader ---- *)
-Theorem C13_loader_safe : forall c data,
+Theorem C13_loader_safe_cfg : forall c data,
   fx_sec c = true -> fx_slen c = true -> bytes_ok data -> N.of_nat (List.length data) < BIG ->
   (deserializeC c data <> LCrash /\ deserializeC c data <> LFuel) /\
   (forall m, deserializeC c data = Loaded m -> code_fits m).
 Proof. exact loader_safe_fixed. Qed.
+Print Assumptions C13_loader_safe_cfg.
+
+(* the current loader: for every byte string below 2^27 bytes, no access outside the buffer, the loops end *)
+Theorem C13_loader_safe : forall data, bytes_ok data -> N.of_nat (List.length data) < BIG ->
+  deserializeC cur data <> LCrash /\ deserializeC cur data <> LFuel.
+Proof. intros data H1 H2. exact (proj1 (loader_safe_fixed cur data eq_refl eq_refl H1 H2)). Qed.
 Print Assumptions C13_loader_safe.
 
-Theorem C13_loader_safe_refuted :
-  (fx_sec cur = false -> exists data, bytes_ok data /\ List.length data = 44%nat /\ deserializeC cur data = LCrash) /\
-  (fx_slen cur = false -> exists data, bytes_ok data /\ List.length data = 48%nat /\ deserializeC cur data = LCrash).
-Proof.
-  split; intros H.
-  - exists w_sec. destruct w_sec_ok. split; [assumption|]. split; [assumption|]. exact (w_sec_crashes cur H).
-  - exists w_slen. destruct w_slen_ok. split; [assumption|]. split; [assumption|]. exact (w_slen_crashes cur H).
-Qed.
-Print Assumptions C13_loader_safe_refuted.
-
 (* ---- verifier ---- *)
-Theorem C13_verifier_safe : forall c m, fx_fnrange c = true -> code_fits m -> verifyC c m = VReject \/ verifyC c m = VAccept.
+Theorem C13_verifier_safe_cfg : forall c m, fx_fnrange c = true -> code_fits m -> verifyC c m = VReject \/ verifyC c m = VAccept.
 Proof. exact verifier_safe_fixed. Qed.
-Print Assumptions C13_verifier_safe.
+Print Assumptions C13_verifier_safe_cfg.
 
-Theorem C13_verifier_safe_refuted : fx_fnrange cur = false ->
-  verifyC cur w_fn_module = VCrash /\ pipeline cur w_fnrange 10 = PVerifyCrash.
-Proof. intros H; split; [exact (w_fn_crashes cur H) | exact (w_fnrange_crashes cur H)]. Qed.
-Print Assumptions C13_verifier_safe_refuted.
+(* the current verifier on whatever the current loader produced: accepts or rejects, never reads outside the code buffer, ends *)
+Theorem C13_verifier_safe : forall data m, bytes_ok data -> N.of_nat (List.length data) < BIG ->
+  deserializeC cur data = Loaded m -> verifyC cur m = VReject \/ verifyC cur m = VAccept.
+Proof.
+  intros data m H1 H2 H3. apply verifier_safe_fixed; [reflexivity|].
+  exact (proj2 (loader_safe_fixed cur data eq_refl eq_refl H1 H2) m H3).
+Qed.
+Print Assumptions C13_verifier_safe.
 
 (* every position the verifier walked in an accepted module decodes (for every cfg, repaired or not) *)
 Theorem C13_sweep_decodes : forall c m, verifyC c m = VAccept ->
@@ -61,45 +62,32 @@ Proof. intros. apply exec_instr_not_invalid. eapply fetch_ok_in_table; eassumpti
 Print Assumptions C13_no_invalid_opcode.
 
 (* ---- VM ----
-   vm_safe_partial: for EVERY byte string below 2^27 bytes and EVERY fuel, load + verify + run never reaches Crash or a Signal,
-   when the six repairs are present.  "partial": the run may end in Unmodelled, i.e. leave the modelled opcode set
+   vm_safe_partial: for EVERY byte string below 2^27 bytes and EVERY fuel, load + verify + run of the current code never reaches
+   Crash or a Signal (pipe_safe also excludes a loader/verifier Crash or non-termination).  "partial": the run may end in Unmodelled, i.e. leave the modelled opcode set
    (all opcodes of the table except PUSH_F64, CAST_FLOAT, HM_NEW..HM_LEN, ADD/SUB/MUL/DIV with an array operand,
    CALL_EXTERN with a valid import index); reference counting / free (C14) and the C stack depth
    of recursive C helpers on deep acyclic values are not part of this model. *)
-Theorem C13_vm_safe_partial : forall c data fuel,
+Theorem C13_vm_safe_partial_cfg : forall c data fuel,
   c13_fixed c = true -> bytes_ok data -> N.of_nat (List.length data) < BIG -> pipe_safe (pipeline c data fuel).
 Proof. exact pipeline_safe. Qed.
+Print Assumptions C13_vm_safe_partial_cfg.
+
+(* the current code, no premise: every byte string, every instruction budget *)
+Theorem C13_vm_safe_partial : forall data fuel,
+  bytes_ok data -> N.of_nat (List.length data) < BIG -> pipe_safe (pipeline cur data fuel).
+Proof. intros data fuel. exact (pipeline_safe cur data fuel eq_refl). Qed.
 Print Assumptions C13_vm_safe_partial.
 
 (* one instruction: the state invariant (every reference on the stack, in globals, in heap cells and frames denotes a cell
    of its kind; frames name existing functions) is kept, and no Crash/Signal outcome is produced *)
-Theorem C13_step_inv : forall c m, fx_div c = true -> fx_substr c = true -> fx_print c = true ->
-  forall s fr frs ip i n, wf m s -> st_frames s = fr :: frs -> good m (exec_instr c m s fr frs ip i n).
-Proof. exact exec_instr_good. Qed.
+Theorem C13_step_inv : forall m s fr frs ip i n, wf m s -> st_frames s = fr :: frs -> good m (exec_instr cur m s fr frs ip i n).
+Proof. exact (fun m => exec_instr_good cur m eq_refl eq_refl eq_refl). Qed.
 Print Assumptions C13_step_inv.
 
-(* the current source: whichever repair is missing, there is a module (a real file: bytes, < 200 of them) that drives the
-   loader, the verifier or the VM into Crash / Signal *)
-Theorem C13_vm_safe_refuted : c13_fixed cur = false ->
-  exists data fuel, bytes_ok data /\ N.of_nat (List.length data) < BIG /\ ~ pipe_safe (pipeline cur data fuel).
-Proof. exact (pipeline_unsafe cur). Qed.
-Print Assumptions C13_vm_safe_refuted.
-
-(* the individual VM witnesses (each replayed on nano_vm / vm_probe) *)
-Theorem C13_vm_witnesses :
-  (fx_div cur = false -> is_run_of (pipeline cur w_div 10) is_signal = true /\ is_run_of (pipeline cur w_mod 10) is_signal = true) /\
-  (fx_substr cur = false -> is_run_of (pipeline cur w_substr 10) is_crash = true) /\
-  (fx_print cur = false -> is_run_of (pipeline cur w_cycle 10) is_crash = true).
-Proof.
-  split; [|split].
-  - intros H. split; [exact (w_div_signals cur H) | exact (w_mod_signals cur H)].
-  - intros H. exact (w_substr_crashes cur H).
-  - intros H. exact (w_cycle_crashes cur H).
-Qed.
-Print Assumptions C13_vm_witnesses.
-
-(* both directions at once, for any combination of repairs: the pipeline is safe on all inputs iff the six repairs are present *)
-Theorem C13_safe_iff_repaired : forall c,
+(* each of the six repairs is necessary and together they are sufficient: for any combination c of repairs the pipeline is safe on all
+   inputs iff all six are present (the "only if" direction carries the computed witness files w_sec, w_slen, w_fnrange, w_div, w_substr,
+   w_cycle that were replayed on the unrepaired binaries; known_findings.d/C13.json, status fixed) *)
+Theorem C13_repairs_necessary : forall c,
   (forall data fuel, bytes_ok data -> N.of_nat (List.length data) < BIG -> pipe_safe (pipeline c data fuel)) <-> c13_fixed c = true.
 Proof.
   intros c; split.
@@ -107,11 +95,11 @@ Proof.
     destruct (pipeline_unsafe c E) as [data [fuel [A [B C]]]]. exfalso. apply C. apply H; assumption.
   - intros H data fuel A B. apply pipeline_safe; assumption.
 Qed.
-Print Assumptions C13_safe_iff_repaired.
+Print Assumptions C13_repairs_necessary.
 
 (* non-vacuity: the hypotheses are satisfiable and the model runs real modules *)
 Example C13_nonvacuous :
-  c13_fixed cfg_fixed = true /\ c13_fixed cfg_pinned = false /\
+  c13_fixed cur = true /\ c13_fixed cfg_pinned = false /\
   finished_with (pipeline cfg_fixed w_hello 100) 0 [55; 10] = true /\ finished_with (pipeline cfg_pinned w_hello 100) 0 [55; 10] = true /\
   bytes_ok w_hello /\ on_sweep w_fn_module {| f_name := 0; f_arity := 0; f_off := 0; f_len := 10; f_locals := 0; f_upvals := 0 |} 9.
 Proof.
